@@ -39,7 +39,9 @@ Fixpoint parse_ops (n : nat) (ns : Z) (l : list Z) : list mop :=
        else if kind =? 2 then MChanTooLong vis s
        else if kind =? 3 then MTimerCommon vis
        else if kind =? 4 then MTimerChan vis s
-       else MStartup vis) :: parse_ops k ns t3
+       else if kind =? 5 then MStartup vis
+       else if kind =? 7 then MFailCommon vis
+       else MFailChan vis s) :: parse_ops k ns t3
     | _ => []
     end
   | _, _ => []
@@ -70,7 +72,7 @@ Definition run_case (inp : list Z) : option (config * mgr) :=
       let '(log, t3) := parse_log (Z.to_nat nlog) t2 in
       match t3 with
       | nops :: t4 =>
-        let c := std_config n (nthz bases) (fun s => negb (nthz trk s =? 0)) sl tl csl ctl in
+        let c := std_config n (nthz bases) (fun s => nthz trk s =? 1) (fun s => nthz trk s =? 2) sl tl csl ctl in
         Some (c, mrun c log (parse_ops (Z.to_nat nops) n t4))
       | [] => None
       end
